@@ -1,5 +1,6 @@
 SPECIFICATION Spec
 CONSTANTS MaxLen = 6
+EmitMod = 4
 Emit = TRUE
 Vocab <- VocabThorough
 INVARIANTS TypeOK DesignRefinesInfoset EmitCase
